@@ -803,6 +803,29 @@ def atom_apply(kind: str, arg: PolyArr, extra=None) -> PolyArr:
       if np.all(np.abs(a['keyvals'] - vals[big]) <= 1e-10 * np.abs(vals).max()):
         found = a
         break
+    if found is None and kind == 'recip' and getattr(sp, 'normalise_recip_squares', True):
+      # 1 / (d * d) = (1 / d)^2: a denominator that is the square of the argument of an existing reciprocal atom (quotient rule in derivative
+      # programs) is expressed through that atom, so that the two forms meet in the same symbols
+      sqcol = None
+      for a in sp.atoms:
+        if a['kind'] != 'recip':
+          continue
+        if 'sq' not in a:
+          q_ = a['arg'].mul(a['arg'])
+          Mq = _csr(q_._aligned()); Mq.sum_duplicates()
+          cq = Mq.indices[Mq.indptr[0]:Mq.indptr[1]]; vq = Mq.data[Mq.indptr[0]:Mq.indptr[1]]
+          oq = np.argsort(cq); a['sq'] = (cq[oq], vq[oq])
+        cq, vq = a['sq']
+        nzq = vq != 0
+        cq = cq[nzq]; vq = vq[nzq]
+        if len(cq) == len(cols) and np.array_equal(cq, cols) and np.all(np.abs(vq - vals) <= 1e-10 * np.abs(vals).max()):
+          v_slot = a['var'] + 1
+          sl = np.zeros((1, sp.maxdeg), dtype=np.int64); sl[0, 0] = v_slot; sl[0, 1] = v_slot
+          sqcol = int(sp.intern(sp.pack(sl))[0])
+          break
+      if sqcol is not None:
+        out_cols[i] = sqcol
+        continue
     if found is None:
       one = PolyArr((1,), M[i], sp)
       Lb, Hb = sp.mono_bounds(cols)
@@ -1035,6 +1058,89 @@ def directional_derivative(P: PolyArr, x_cols: np.ndarray, v_cols: np.ndarray) -
   Mn = sps.csr_matrix((np.concatenate(vals), (np.concatenate(rows), np.concatenate(cols))), shape=(P.size, sp.ncols))
   Mn.sum_duplicates()
   return PolyArr(P.shape, Mn, sp)
+
+
+def partial_derivative(P: PolyArr, var_col: int) -> PolyArr:
+  """dP/d(var) for the variable whose single-variable monomial is column var_col (each occurrence in a monomial is removed in turn)."""
+  sp = P.sp
+  v = int(sp.slots(sp.codes[np.asarray([var_col])])[0, 0])
+  M = _csr(P._aligned()); M.sum_duplicates()
+  coo = M.tocoo()
+  ucols, inv = np.unique(coo.col, return_inverse=True)
+  s = sp.slots(sp.codes[ucols])
+  rows = []; cols = []; vals = []
+  for k in range(s.shape[1]):
+    hit = s[:, k] == v
+    if not hit.any():
+      continue
+    s2 = s[hit].copy()
+    s2[:, k] = 0
+    s2 = -np.sort(-s2, axis=1)
+    newc = np.full(len(ucols), -1, dtype=np.int64)
+    newc[hit] = sp.intern(sp.pack(s2))
+    nc = newc[inv]
+    ok = nc >= 0
+    rows.append(coo.row[ok]); cols.append(nc[ok]); vals.append(coo.data[ok])
+  if not rows:
+    return PolyArr(P.shape, sps.csr_matrix((P.size, sp.ncols)), sp)
+  Mn = sps.csr_matrix((np.concatenate(vals), (np.concatenate(rows), np.concatenate(cols))), shape=(P.size, sp.ncols))
+  Mn.sum_duplicates()
+  return PolyArr(P.shape, Mn, sp)
+
+
+def directional_derivative_with_atoms(P: PolyArr, x_cols: np.ndarray, v_cols: np.ndarray) -> PolyArr:
+  """d/d eps P(x + eps v) at eps = 0 when P contains atoms a_k = phi_k(arg_k(x, a_<k)): chain rule
+       dP = sum_i dP/dx_i v_i + sum_k dP/da_k * phi_k'(arg_k) * d(arg_k),
+  with d(arg_k) computed recursively in creation order.  phi' for exp is the atom itself, for log the reciprocal atom of the argument,
+  for pow(y) y * pow(y-1), for recip -a^2, for sqrt 1/(2a), for sin/cos the partner atom.  relu / abs / sign atoms (kinks inside the box)
+  are refused."""
+  sp = P.sp
+  natoms = len(sp.atoms)            # atoms created while differentiating are not themselves differentiated here
+  d_atom = {}                       # atom index -> PolyArr (1,) : d a_k
+  for k in range(natoms):
+    a = sp.atoms[k]
+    arg = a['arg']
+    darg = directional_derivative(arg, x_cols, v_cols)
+    for j in range(k):
+      cj = sp.atoms[j]['col']
+      pj = partial_derivative(arg, cj)
+      if pj.nnz():
+        darg = darg.add(pj.mul(d_atom[j]))
+    if darg.nnz() == 0:
+      d_atom[k] = darg
+      continue
+    kind = a['kind']
+    me = PolyArr((1,), sps.csr_matrix(([1.0], ([0], [a['col']])), shape=(1, sp.ncols)), sp)
+    if kind == 'exp':
+      fac = me
+    elif kind == 'log':
+      fac = atom_apply('recip', arg)
+    elif kind == 'pow':
+      y = float(a['extra'])
+      fac = atom_apply('pow', arg, y - 1.0).scale(y) if (y - 1.0) != int(y - 1.0) or abs(y - 1.0) > 8 else arg.ipow(int(y - 1.0)).scale(y)
+    elif kind == 'recip':
+      fac = me.mul(me).scale(-1.0)
+    elif kind == 'sqrt':
+      fac = atom_apply('recip', me).scale(0.5)
+    elif kind == 'rsqrt':
+      fac = me.mul(me).mul(me).scale(-0.5)
+    elif kind == 'sin':
+      fac = atom_apply('cos', arg)
+    elif kind == 'cos':
+      fac = atom_apply('sin', arg).scale(-1.0)
+    elif kind == 'tanh':
+      fac = me.mul(me).scale(-1.0).add(1.0)
+    else:
+      raise DegreeOverflow(f'directional derivative through a {kind} atom (kink) is not defined')
+    d_atom[k] = fac.mul(darg)
+  out = directional_derivative(P, x_cols, v_cols)
+  for k in range(natoms):
+    if d_atom[k].nnz() == 0:
+      continue
+    pk = partial_derivative(P, sp.atoms[k]['col'])
+    if pk.nnz():
+      out = out.add(pk.mul(d_atom[k]._bcast(pk.shape) if hasattr(d_atom[k], '_bcast') else d_atom[k]))
+  return out
 
 
 def atom_apply_normalised(kind: str, arg: PolyArr, extra=None) -> PolyArr:
